@@ -5,6 +5,7 @@ import PynModel.Core.Meta
 import PynModel.Process.Convolve
 import PynModel.Process.Spectrum
 import PynModel.Process.Tuning
+import PynModel.Core.NumpyWrap
 /-!
 # Line protocol, part 2: container-level operations (series constructor and histories)
 `snew <t> <rows> <sup|none>`            → `t|rows|sup|num/den`
@@ -227,6 +228,24 @@ def histStep (toks : List String) : String :=
     | _, _ => "bad-op"
   | _ => "bad-op"
 
+/-- `wrap <n> <inShape> <outShape|none>` → `raw` | `series:<ndim>:<cols 0/1>`;
+`concatok <t1>/<t2>/…` → 0/1 -/
+def wrapStep (toks : List String) : String :=
+  match toks with
+  | ["wrap", n, inS, outS] =>
+    match n.toNat?, parseNatArr inS, (if outS == "none" then some none else (parseNatArr outS).map some) with
+    | some n, some inS, some outS =>
+      match wrapOut n inS.toList (outS.map (·.toList)) with
+      | .raw => "raw"
+      | .series nd c => s!"series:{nd}:{if c then 1 else 0}"
+    | _, _, _ => "bad-op"
+  | ["concatok", parts] =>
+    let ps := (parts.splitOn "/").map parseArr
+    if ps.all (·.isSome) then
+      (if concatAccepts (ps.map fun p => (p.getD #[]).toList) then "1" else "0")
+    else "bad-op"
+  | _ => "bad-op"
+
 def stepAll (line : String) : String :=
   let toks := (line.trimAscii.toString.splitOn " ").filter (· ≠ "")
   match toks with
@@ -236,6 +255,8 @@ def stepAll (line : String) : String :=
   | "conv" :: _ => convStep toks
   | "fftbins" :: _ => specStep toks
   | "hist1" :: _ => histStep toks
+  | "wrap" :: _ => wrapStep toks
+  | "concatok" :: _ => wrapStep toks
   | "tnew" :: _ => metaStep toks
   | "tget" :: _ => metaStep toks
   | "tint" :: _ => metaStep toks
